@@ -39,7 +39,7 @@ pub fn meta(tier: Tier) -> CheckMeta {
                hash(backend, history); non-trivial = history containing at least one prefix-related key pair and \
                one reopen.",
         assumptions: vec!["torn writes inside one backend commit are trusted to the backend's atomic batch; sampled, not exhausted".into()],
-        parts: vec![PartSpec { name: "native", nshards: 8, budget_s: tier.pick(400, 3000), env: vec![], program: None }],
+        parts: vec![PartSpec { name: "native", nshards: 8, budget_s: tier.pick(400, 3000), env: vec![], program: None, prepare: None, sanitizer: None }],
         must_be_nonzero: vec![("reopens", "no reopen"), ("reads_after_commit", "no read"), ("marker_passes", "atomicity marker test did not run")],
     }
 }
@@ -552,7 +552,7 @@ fn run_backend<Db: KvDatabase>(ctx: &WorkerCtx, rep: &mut Report, name: &str, op
 pub fn worker(ctx: &WorkerCtx) -> Report {
     let mut rep = Report::default();
     let base = Rng::new(ctx.seed).derive(1100 + ctx.shard as u64);
-    let n: u64 = ctx.tier.pick(6, 200);
+    let n: u64 = ctx.pick(30, 600);
     let mut seen = std::collections::HashSet::new();
     #[cfg(feature = "rocksdb")]
     run_backend(ctx, &mut rep, "rocksdb", &|p: &Path| qbice_storage::kv_database::rocksdb::RocksDB::open(p, Plugin::default()).expect("open rocksdb"), &base, n, &mut seen);
